@@ -101,7 +101,7 @@ def rsaSignRep (pad : String) (n : Nat) (pre : Bool) (msg : Bytes) : Option (Opt
   match pad with
   | "pkcs2" => some (rsaPssSignRep h256 n pre msg)
   | "pkcs1" => some ((emsaPkcs1Encode (if pre then [] else sha256Prefix) dg klen).map os2ip)
-  | "basic" => some (if klen ≥ dg.length + 2 then some (os2ip ([0x00, 0xff] ++ List.replicate (klen - dg.length - 2) 0 ++ dg)) else none)
+  | "basic" => some ((basicEncode dg klen).map os2ip)
   | _ => none
 
 /-- `k` ring elements "h pk c0 c1 r0 r1" from a token list; returns the rest -/
@@ -150,7 +150,10 @@ def handleWith (fast : Bool) (env : Option C03.Env) (w : Nat) (op : String) (arg
     let ok := (do
       let n ← kvNat kv "n"; let e ← kvNat kv "e"; let d ← kvNat kv "d"; let p ← kvNat kv "p"; let q ← kvNat kv "q"
       let dp ← kvNat kv "dp"; let dq ← kvNat kv "dq"; let qi ← kvNat kv "qi"; let n2 ← kvNat kv "n2"
-      some (rsaKeyOk n e d p q dp dq qi && n2 == n && e == 65537 && bitLen p == bits / 2 && bitLen q == bits / 2 &&
+      -- a build without CP_CRT leaves dP, dQ, qInv unset (0)
+      let crtOk := rsaKeyOk n e d p q dp dq qi ||
+        (dp == 0 && dq == 0 && qi == 0 && n == p * q && decide (p < q) && e * d % ((p - 1) * (q - 1)) == 1)
+      some (crtOk && n2 == n && e == 65537 && bitLen p == bits / 2 && bitLen q == bits / 2 &&
         probablePrime p && probablePrime q)).getD false
     mustHold ok got "n = pq, p < q primes of bits/2 bits, e = 65537, ed = 1 mod phi, dp, dq, qi consistent" "rsa.gen"
   | "rsa_sig", [pad, hash, msg, cap, n, e, d, p, q, dp, dq, qi] => do
@@ -164,7 +167,8 @@ def handleWith (fast : Bool) (env : Option C03.Env) (w : Nat) (op : String) (arg
     | none => some { model := got, spec := ["err"], tags := ["rsa.sig.refuse"] }
     | some em =>
       if cap < klen then some { model := got, spec := ["err"], tags := ["rsa.sig.cap"] } else
-      let viaCrt := "sig=" ++ fmtBytes (i2osp (rsasp1Crt p q dp dq qi em) klen)
+      let viaCrt := if qi == 0 then "sig=" ++ fmtBytes (i2osp (powMod em d n) klen)
+        else "sig=" ++ fmtBytes (i2osp (rsasp1Crt p q dp dq qi em) klen)
       let plain := "sig=" ++ fmtBytes (i2osp (powMod em d n) klen)
       some { model := viaCrt, spec := [plain], tags := ["rsa.sig"] }
   | "rsa_ver", [pad, hash, n, e, msg, sig] => do
